@@ -315,6 +315,40 @@ pub fn universe(src: &[u8]) -> Universe {
     u
 }
 
+/// targeted queries: for every method line of the file (with the class it stands under), frames at the
+/// first, an interior, the last line of its range and one line either side, the by-parameters frame and
+/// the method lookup; at most `limit` queries, spread over the file
+pub fn targeted(src: &[u8], limit: usize) -> Vec<Value> {
+    let mut out = vec![];
+    let mut class = String::new();
+    for r in ProguardMapping::new(src).iter().flatten() {
+        match r {
+            ProguardRecord::Class { obfuscated, .. } => class = obfuscated.to_string(),
+            ProguardRecord::Method { obfuscated, arguments, line_mapping, .. } if !class.is_empty() => {
+                let mut lines: Vec<u128> = vec![0];
+                if let Some(lm) = line_mapping {
+                    let (a, b) = (lm.startline as u128, lm.endline as u128);
+                    lines = vec![a, (a + b) / 2, a + 1, b, a.saturating_sub(1), b + 1];
+                    lines.dedup();
+                }
+                for l in lines {
+                    out.push(json!({"t": "frame", "frame": {"class": bytes_json(&class), "method": bytes_json(obfuscated),
+                                    "line": dec_json(l), "file": [bytes_json("SourceFile")], "params": []}}));
+                }
+                out.push(json!({"t": "frame", "frame": {"class": bytes_json(&class), "method": bytes_json(obfuscated),
+                                "line": [0], "file": [], "params": [bytes_json(arguments)]}}));
+                out.push(json!({"t": "method", "class": bytes_json(&class), "method": bytes_json(obfuscated)}));
+            }
+            _ => {}
+        }
+    }
+    if out.len() > limit {
+        let step = out.len() as f64 / limit as f64;
+        out = (0..limit).map(|k| out[(k as f64 * step) as usize].clone()).collect();
+    }
+    out
+}
+
 /// a near miss of a name: neighbour in sort order (one byte changed / appended / removed)
 pub fn near_miss(rng: &mut Rng, s: &str) -> String {
     let mut b = s.as_bytes().to_vec();
